@@ -100,13 +100,14 @@ pub fn main(args: &[String]) -> i32 {
     let fault_at: i64 = o.num("faultat", -1i64);
     let fault_mode: u8 = o.num("faultmode", 1u8);
     let fault_from = o.num("faultfrom", 0u32) == 1;
+    let fault_count: i64 = o.num("faultcount", 1i64);
     let nested_max: usize = o.num("nested", 0);
     if o.num("forcesync", 0u32) == 1 {
         feoxdb::verif::force_sync(true);
     }
     if fault_at >= 0 {
         feoxdb::verif::set_fault_fn(Some(Box::new(move |idx, _kind, _sector, _len| {
-            let hit = if fault_from { idx as i64 >= fault_at } else { idx as i64 == fault_at };
+            let hit = if fault_from { idx as i64 >= fault_at } else { idx as i64 >= fault_at && (idx as i64) < fault_at + fault_count };
             if hit && !HEALED.load(std::sync::atomic::Ordering::SeqCst) { fault_mode } else { 0 }
         })));
     }
@@ -333,6 +334,16 @@ pub fn main(args: &[String]) -> i32 {
     }
     obs::uninstall();
     let raw = obs::take();
+    if let Some(lp) = o.get("lockout") {
+        // C18: lock-ownership events per thread, for the lock-order model
+        use std::io::Write as _;
+        let mut f = std::io::BufWriter::new(std::fs::File::create(lp).expect("lockout"));
+        for e in &raw {
+            if e.kind == "lk" {
+                writeln!(f, "{}", json!({"tid": e.tid, "lock": String::from_utf8_lossy(&e.key), "acq": e.a, "mode": e.b})).unwrap();
+            }
+        }
+    }
     let total_blocks = blocks;
     let io_calls = feoxdb::verif::io_calls();
     let code = emit_trace(&o, &raw, &calls, &flushes, &keys, fmt, ttl, total_blocks, &dir, &out_path, max_exh, max_images, 1_000 * E9, cc, nested_max);
